@@ -255,7 +255,10 @@ func c20Run(c *core.Ctx, idx int) {
 	// cosmetic options off (the tag carries them).
 	srv := proxy.VerifNewServer()
 	for k := 0; k < 4; k++ {
-		pageURL := []string{"http://example.org/index.html", "http://example.org/index.html", "http://example.org/other.html", "https://sub.example.org/", "http://other.example.net/"}[c.Rng.Intn(5)]
+		pageURL := []string{"http://example.org/index.html", "http://example.org/index.html", "http://example.org/other.html", "https://sub.example.org/", "http://other.example.net/",
+			// Internationalized names the way browsers send them, capitals, a
+			// port, an address.
+			"http://xn--bcher-kva.example/", "http://xn--e1afmkfd.xn--p1ai/page?q=1", "https://www.xn--mnchen-3ya.de:8443/", "http://EXAMPLE.org/Index.html", "http://192.168.1.1/admin", "http://xn--zckzah.xn--zckzah/"}[c.Rng.Intn(11)]
 		// (an HTML page is an HTML page whatever method fetched it)
 		method := []string{"GET", "GET", "GET", "POST", "PUT"}[c.Rng.Intn(5)]
 		result := &rules.MatchingResult{}
@@ -441,6 +444,7 @@ func init() {
 		ID:    "C20",
 		Level: "exploration",
 		Rule: "per case 4 bodies: ASCII, all 256 byte values or mostly high bytes, plain or gzip-encoded, with 0..4 markers (</head, <link, <style, <script in random letter case) whose first occurrence is placed at 0, early, at 16383/16384, straddling the window, beyond it, or where high-byte padding moves the transcoded offset over the window, with near-markers before it (truncated markers and markers with one byte changed in its case bit, high bit or value, e.g. 0x1c for '<'); " +
+			"pages on ASCII, punycode and capitalised hosts, with a port, on an address; " +
 			"oracle on bytes: output == body[:i]+tag+body[i:] when the marker's transcoded offset is inside the window, output == body when no marker starts before byte 16384, either exact form in between; Content-Length == len(output), Content-Encoding removed, tag has the content-script form (hook VerifFilterHTMLFor: pages fetched with GET, POST or PUT; one server for the four sessions of a case, pages of the same and of other hosts whose verdicts switch different cosmetic options off; the response is attached with Session.SetResponse and declares no charset, utf-8, windows-1251, euc-jp, utf-16, iso-8859-1 or an unknown one; the original body is delivered in pieces of 1 / 13 / 512 / 1460 / 4096 / 16384 bytes or at once, with a known or unknown declared length; the four responses of a case are filtered first and their bodies are read afterwards in another order); non-trivial = body with a marker; distinct by body head, marker offset and encoding",
 		Assumptions: []string{
 			"the 16 KiB window is measured by the code on the Latin-1 to UTF-8 transcoded text; between the byte and the transcoded bound either outcome is accepted",
